@@ -27,6 +27,8 @@ func KitchenSink(packageRoot string) *Schema {
 		Def("i32", P("int32"), "-2147483648"), Def("i64", P("int64"), "9223372036854775807"), Def("f32", P("float32"), "1.5"), Def("f64", P("float64"), "1e21"),
 		Def("b", P("bool"), "true"), Def("s", P("string"), `"a\"b\\c\né"`), Def("by", P("bytes"), `"\u0001\u007fÿ"`), Def("es", P("string"), `""`))
 	rec("Leaf", nil, F("s", P("string")), Def("n", P("int32"), "7"))
+	// nothing required at the top, required fields only below: who raises the missing-fields error?
+	rec("AllOpt", nil, Opt("leaf", R(q("Leaf"))), Opt("leaves", A(R(q("Leaf")))), Opt("byName", M(R(q("Leaf")))), Opt("note", P("string")))
 	s.Add(&TypeDef{Kind: "union", Name: "U", Namespace: ns, Members: []Member{
 		{"int", P("int32")}, {"long", P("int64")}, {"float", P("float32")}, {"double", P("float64")}, {"boolean", P("bool")}, {"string", P("string")}, {"bytes", P("bytes")},
 		{q("Leaf"), R(q("Leaf"))}, {q("Color"), R(q("Color"))}, {q("F4"), R(q("F4"))}, {"arr", A(P("string"))}, {"map", M(P("int32"))}, {q("TString"), R(q("TString"))},
